@@ -317,6 +317,8 @@ uint64_t varintPFORGetAt(const uint8_t *src, uint32_t index,
         exceptionPtr += w1 + w2;
     }
 
-    /* Should not reach here if data is valid */
-    return 0;
+    /* Not in the exception list: with 8-byte slots the marker (all ones) is
+     * also the offset of the regular value UINT64_MAX when min is 0, and the
+     * full decoder yields min + offset for it */
+    return meta->min + offset;
 }
